@@ -812,6 +812,53 @@ def run_determ(ctx, i):
     same13 = isinstance(zooms[1], np.ndarray) and isinstance(zooms[3], np.ndarray) and zooms[1].shape == zooms[3].shape and np.array_equal(zooms[1], zooms[3], equal_nan=True)
     ctx.check(same02 and same13, "deterministic", what="Array2D.zoomed_around_mask repeated after unrelated allocations", mask=mz,
               first=lambda: zooms[0], again=lambda: zooms[2])
+    # image-plane meshes computed from freshly built, equal inputs: A, then another mask B, then A again, on separate mesh objects -
+    # whatever a module keeps between calls (memoised curves, work arrays) must not change what equal inputs give
+    sA = float(rng.uniform(0.3, 1.0))
+    shp = (int(rng.choice([7, 9, 11])),) * 2
+
+    def image_mesh(kind_, scale_, radius_):
+        mk = aa.Mask2D.circular(shape_native=shp, pixel_scales=(scale_, scale_), radius=radius_ * scale_)
+        g_ = _np(aa.Grid2D.from_mask(mask=mk))
+        ad = aa.Array2D(values=5.0 + g_ @ np.array([0.11, 0.23]), mask=mk)
+        if kind_ == "hilbert":
+            return np.array(_np(aa.image_mesh.Hilbert(pixels=12, weight_floor=0.1, weight_power=1.0).image_plane_mesh_grid_from(mask=mk, adapt_data=ad)), dtype=float)
+        return np.array(_np(aa.image_mesh.Overlay(shape=(4, 5)).image_plane_mesh_grid_from(mask=mk, adapt_data=None)), dtype=float)
+    for kind_ in ("hilbert", "overlay"):
+        res = []
+        for (sc_, rad_) in ((sA, 2.6), (sA * 1.7, 3.1), (sA, 2.6), (sA, 2.6)):
+            try:
+                res.append(image_mesh(kind_, sc_, rad_))
+            except Exception as e:
+                res.append("EXC:" + type(e).__name__ + ":" + str(e)[:80])
+        same_ = all(isinstance(x, np.ndarray) and isinstance(res[0], np.ndarray) and x.shape == res[0].shape and np.array_equal(x, res[0]) for x in (res[2], res[3])) \
+            or all(isinstance(x, str) and x == res[0] for x in (res[2], res[3]))
+        ctx.check(same_, "deterministic", what="image_mesh.%s.image_plane_mesh_grid_from on equal fresh inputs: A, B, A, A" % kind_, first=lambda: res[0],
+                  third=lambda: res[2], fourth=lambda: res[3])
+    # 1-D structures built from caller-owned arrays on a mask with masked entries (native-format values, float and integer)
+    L1 = int(rng.integers(3, 9))
+    m1 = rng.random(L1) < 0.4
+    m1[int(rng.integers(L1))] = False
+    m1[(int(np.flatnonzero(~m1)[0]) + 1) % L1] = True
+    for dt in (float, np.int64):
+        v_nat = (rng.normal(size=L1) * 50).astype(dt) + (1 if dt is not float else 0.5)
+        v_sl = (rng.normal(size=int((~m1).sum())) * 50).astype(dt) + 1
+        keep_nat, keep_sl = v_nat.copy(), v_sl.copy()
+        mk1 = aa.Mask1D(mask=m1.copy(), pixel_scales=(0.5,))
+        outs = []
+        for sn in (False, True):
+            for vv in (v_nat, v_sl):
+                try:
+                    a1 = aa.Array1D(values=vv, mask=mk1, store_native=sn)
+                    outs.append((np.array(_np(a1.slim)), np.array(_np(a1.native))))
+                except Exception as e:
+                    outs.append(repr(e)[:80])
+        try:
+            aa.Grid1D(values=v_sl.astype(float) if dt is float else v_sl, mask=mk1)
+        except Exception:
+            pass
+        ctx.check(np.array_equal(v_nat, keep_nat) and np.array_equal(v_sl, keep_sl), "input_fingerprint", callee="Array1D / Grid1D constructors",
+                  what="caller-owned 1-D values on a mask with masked entries", dtype=str(np.dtype(dt)), mask_1d=m1, before=keep_nat, after=v_nat)
     ctx.case("determ", i, nontrivial=True, cls=["determinism"], sample=lambda: {"determinism": i, "noise_seed": seed})
 
 
